@@ -16,6 +16,7 @@ Parameters / hypotheses (all explicit):
 -/
 import LinVerif.Lemmas.C15Table
 import LinVerif.Lemmas.C15Merge
+import LinVerif.Lemmas.C15HeapFix
 import LinVerif.Lemmas.C15Version
 import LinVerif.Lemmas.C15Open
 import LinVerif.Lemmas.C15Cache
@@ -938,6 +939,56 @@ theorem merge_is_the_sorted_merge (its : List Input) (hs : ∀ it ∈ its, Sorte
     exact this.imp (by intro a b h; simpa using h)
   · exact (hperm.map (·.1)).trans (List.mergeSort_perm _ _).symm
 
+/-! ## round 12: `heap.Fix` at any index; when the top may be advanced in place -/
+
+/-- **heap_fix_any_index.** The stdlib contract of `heap.Fix(&pq, i)` (= `priorityQueue.update` of an
+item whose `index` is i) on lindb's queue, for EVERY slot i and every new key: the key (and value) of
+the item in slot i of a heap of any size is replaced by anything — smaller, larger, equal —, then
+`if !down(h, i, n) { up(h, i) }` gives a heap of exactly the same items, and `update` does not panic.
+(`heap_pushfix_spec` is the instance the code uses: the slot `Push` just appended. i = 0 is the usual
+"replace the top in place" variant of a merge step.) -/
+theorem heap_fix_any_index (pq : PQ) (i : Nat) (x : MergedIter.Item) (hi : i < pq.length) (hh : IsHeapPQ pq) :
+    IsHeapPQ (heapFix pqIface (pq.set i x) i) ∧
+    ((heapFix pqIface (pq.set i x) i).map core).Perm ((pq.set i x).map core) ∧
+    pqUpdate (pq.set i x) (i : Int) = some (heapFix pqIface (pq.set i x) i) :=
+  heapFix_pq_spec pq i x hi hh
+
+/-- **top_advance_needs_both_children.** The top item of a heap is advanced in place (its key replaced
+by x's): the queue is still a heap — i.e. NO re-fix is needed — exactly when the new key exceeds neither
+`pq[1]` nor `pq[2]`. A binary heap's second smallest key is min(pq[1], pq[2]), not pq[1]. -/
+theorem top_advance_needs_both_children (pq : PQ) (x : MergedIter.Item) (h0 : 0 < pq.length) (hh : IsHeapPQ pq) :
+    IsHeapPQ (pq.set 0 x) ↔
+      (∀ b, pq[1]? = some b → x.key ≤ b.key) ∧ (∀ b, pq[2]? = some b → x.key ≤ b.key) :=
+  top_replace_pq_iff pq x h0 hh
+
+/-- **top_advance_slot_1_check_insufficient.** For EVERY heap of three or more items whose right child
+is smaller than the advanced key while the left child is not (`pq[2].key < x.key ≤ pq[1].key`): the
+fast path "re-fix only if `top.key > pq[1].key`" (seeded changes c15-22, c15-25) skips the fix and
+leaves a queue that is not a heap — whereas `heap.Fix(&pq, 0)` always repairs it. -/
+theorem top_advance_slot_1_check_insufficient (pq : PQ) (x a b : MergedIter.Item) (hh : IsHeapPQ pq)
+    (_h1 : pq[1]? = some a) (h2 : pq[2]? = some b) (hlo : b.key < x.key) (hhi : x.key ≤ a.key) :
+    ¬ (x.key > a.key) ∧ ¬ IsHeapPQ (pq.set 0 x) ∧ IsHeapPQ (heapFix pqIface (pq.set 0 x) 0) := by
+  have h0 : 0 < pq.length := by
+    rcases Nat.lt_or_ge 2 pq.length with h | h
+    · omega
+    · rw [List.getElem?_eq_none h] at h2; cases h2
+  refine ⟨by omega, ?_, (heapFix_pq_spec pq 0 x h0 hh).1⟩
+  intro hcon
+  have := ((top_replace_pq_iff pq x h0 hh).mp hcon).2 b h2
+  omega
+
+/-- **queue_calls_keep_heap_and_drain_sorted.** From the queue `heap.Init` makes of ANY items, after
+ANY sequence of calls that does not panic — the item in any slot replaced by anything + `heap.Fix` at
+that slot, `heap.Pop`, `Push; Fix(item.index)` — the queue is a heap, and popping it until it is empty
+delivers every remaining item exactly once in non-decreasing key order (what area `tableheap` checks
+on the real priorityQueue). -/
+theorem queue_calls_keep_heap_and_drain_sorted (items : PQ) (ops : List QOp) (pq : PQ)
+    (hr : QOp.runAll (heapInit pqIface items) ops = some pq) :
+    IsHeapPQ pq ∧ ((popAll pq.length pq).map core).Perm (pq.map core) ∧
+    (popAll pq.length pq).Pairwise (fun a b => a.key ≤ b.key) := by
+  have hh := QOp.runAll_heap ops _ pq (heapInit_pq items).1 hr
+  exact ⟨hh, popAll_spec pq.length pq (Nat.le_refl _) hh⟩
+
 /-! ## the hypotheses are satisfiable (non-vacuity) -/
 
 /-- a three-container layout (array, run crossing nothing, bitmap stand-in) is well-formed; its rank at a
@@ -947,6 +998,28 @@ example :
     C15Roaring.members L = [3, 9, 65536, 65537, 65538, 65546, 4294967295] ∧
     (C15Roaring.rank L 65536, C15Roaring.rank L 65540, C15Roaring.rank L 4294967295, C15Roaring.rankCached L 65546)
       = (3, 5, 7, some 6) := by decide
+
+/-- a heap whose second smallest key sits in slot 2 (what `heap.Init` makes of keys 1, 5, 2): advancing the
+top to key 4 passes the slot-1 check, is not a heap, and `Fix` at slot 0 repairs it -/
+example :
+    let pq := heapInit pqIface [⟨0, 1, [], 0⟩, ⟨1, 5, [], 1⟩, ⟨2, 2, [], 2⟩]
+    let x : MergedIter.Item := ⟨0, 4, [], 0⟩
+    IsHeapPQ pq ∧ pq.map (·.key) = [1, 5, 2] ∧ ¬ IsHeapPQ (pq.set 0 x) ∧
+    (heapFix pqIface (pq.set 0 x) 0).map (·.key) = [2, 5, 4] ∧
+    (heapFix pqIface (pq.set 1 ⟨1, 0, [], 1⟩) 1).map (·.key) = [0, 1, 2] := by
+  intro pq x
+  have hh : IsHeapPQ pq := (heapInit_pq _).1
+  refine ⟨hh, by decide, ?_, by decide, by decide⟩
+  exact (top_advance_slot_1_check_insufficient pq x ⟨1, 5, [], 1⟩ ⟨2, 2, [], 2⟩ hh (by decide) (by decide)
+    (by decide) (by decide)).2.1
+
+/-- a sequence of queue calls that does not panic: Fix in the root, in an inner slot, in a leaf, Pop, Push —
+and the drain of what is left -/
+example :
+    let ops : List QOp := [.fix 0 ⟨0, 8, [], 0⟩, .fix 1 ⟨1, 0, [], 1⟩, .fix 4 ⟨4, 2, [], 4⟩, .pop, .push ⟨9, 4, [], 0⟩]
+    let items : PQ := [⟨0, 5, [], 0⟩, ⟨1, 3, [], 1⟩, ⟨2, 9, [], 2⟩, ⟨3, 1, [], 3⟩, ⟨4, 7, [], 4⟩]
+    (QOp.runAll (heapInit pqIface items) ops).map (fun pq => (pq.map (·.key), (popAll pq.length pq).map (·.key))) =
+      some ([2, 3, 9, 8, 4], [2, 3, 4, 8, 9]) := by decide
 
 /-- an operation sequence inside the protocol with a rejected stream key that carries data, a write with
 no stream open and a double commit -/
